@@ -92,16 +92,17 @@ def _emission_sets(thorough):
         ]
     sets = []
     # every string of <= 3 characters x every operation instance, split by kind to bound the size of one TLC run
-    for kind in ("KindBox", "KindFixed", "KindGrow"):
-        sets.append(("every-op-" + kind, dict(one_op, MaxChars=3, Kinds=kind, Texts="TextsSmall", InclSet="BothIncl",
-                                              DrainF=2, DrainB=1, MaxPieces=2), None))
+    every3 = dict(one_op, MaxChars=3, Texts="TextsSmall", DrainF=2, DrainB=1, MaxPieces=2)
+    sets.append(("every-op-box", dict(every3, Kinds="KindBox", InclSet="BothIncl"), None))
+    sets.append(("every-op-fixed", dict(every3, Kinds="KindFixed", InclSet="NoIncl", FixedCaps="CapsMid"), None))
+    sets.append(("every-op-grow", dict(every3, Kinds="KindGrow", InclSet="BothIncl"), None))
     sets.append(("every-ctor", dict(emitc, MaxOps=1, MaxChars=4, StartTexts="SomeStrings", CtorNames="DecodeCtors", MaxSegs=3,
                                     MaxPieces=2), None))
     # every behaviour of constructor + 2 operations over a 3-character alphabet (widths 1, 2, 4)
-    sets.append(("every-path-2", dict(emitc, MaxOps=3, MaxChars=2, Alphabet="AlphabetSmall", StartTexts="Strings1",
+    sets.append(("every-path-2", dict(emitc, MaxOps=3, MaxChars=2, Alphabet="AlphabetSmall", StartTexts="TwoStrings",
                                       CtorNames="FromStrOnly", Texts="TextsSmall", InclSet="NoIncl", Apis="OnlyP",
                                       DrainF=1, DrainB=0, MaxPieces=1, FixedCaps="CapsSmall"), None))
-    sets.append(("walks", dict(walk, MaxOps=10), (3000, 14, 8)))
+    sets.append(("walks", dict(walk, MaxOps=10), (1500, 14, 8)))
     return sets
 
 
